@@ -8,6 +8,7 @@ and are discharged for the three generated suites at the end of the file.
 -/
 import ZkProofs.Lemmas.ClAlgebra
 import ZkModel.Generated.ClConstants
+import ZkModel.ClDriver
 namespace Zk.C13
 open Zk.Cl Zk.IA
 
@@ -984,7 +985,7 @@ theorem repXs_getElem (hA : ArithOK) {N : Int} (hN : 1 < N) (bases ds : List Int
   rw [List.getElem?_eq_getElem hid, List.getElem?_eq_getElem hix, Option.getD_some, Option.getD_some]
   obtain ⟨x, hx⟩ := powMod_isSome_of_unit hA hN (hbases _ (List.getElem_mem hi)) ds[i]
   have : (repXs N bases ds)[i] = (powMod bases[i] ds[i] N).getD 1 := by
-    unfold repXs; rw [List.getElem_zipWith]
+    simp only [repXs, List.getElem_zipWith]
   rw [this, hx, Option.getD_some]
 
 /-- **Binding, as an event.** Two DIFFERENT attribute vectors of the same length accepted under one
@@ -1027,5 +1028,276 @@ theorem cl_binding_rep (hA : ArithOK) {cs : Suite} {σ : Signature} {pk : Public
     omega
   · rw [foldl_mul_eq_prod, one_mul]
     exact hX
+
+/-! ### the range check is the ONLY thing that stops the shift forgery -/
+
+/-- Every check of `verify_multiattr` other than the attribute range passes for the derived
+signature `(e, s, v·a_i^k mod N)` on the vector shifted by `k·e` at position `i` (`k ≥ 0`): enough
+bases, `e` in range, `b^s` defined and the equation holds. (Before the range check was added this
+was an accepted forgery, DESIGN F7.) -/
+theorem shift_passes_equation (hA : ArithOK) {cs : Suite} {σ : Signature} {pk : PublicKey}
+    {bases msgs : List Int} (hN : 0 < pk.N) (hc0 : 0 ≤ pk.c) {i : Nat} (hi : i < msgs.length)
+    (hib : i < bases.length) {k : Int} (hk : 0 ≤ k) (h : Accepts cs σ pk bases msgs) :
+    (msgs.set i (msgs[i] + k * σ.e)).length ≤ bases.length ∧
+    2 ^ (cs.le - 1) < σ.e ∧ σ.e < 2 ^ cs.le ∧
+    ∃ bs, powMod pk.b σ.s pk.N = some bs ∧
+      (σ.v * bases[i] ^ k.toNat % pk.N) ^ σ.e.toNat % pk.N =
+        tmod ((powList pk.N bases (msgs.set i (msgs[i] + k * σ.e))).prod * bs * pk.c) pk.N := by
+  obtain ⟨hlen, hr, he1, he2, -⟩ := (accepts_iff hA hN).mp h
+  obtain ⟨hepos, bs, hbs, heq⟩ := accepts_equation hA hN h
+  refine ⟨by simpa using hlen, he1, he2, bs, hbs, ?_⟩
+  have hbs0 := (powMod_range hA hN hbs).1
+  rw [tmod_eq_emod (Int.mul_nonneg (Int.mul_nonneg (powList_prod_nonneg hN _ _) hbs0) hc0)]
+  have h1 : σ.v ^ σ.e.toNat ≡ (rawList bases msgs).prod * (bs * pk.c) [ZMOD pk.N] := by
+    rw [← mul_assoc]
+    exact heq.trans (((powList_prod_modEq _ _ _).mul_right _).mul_right _)
+  have h2 := shift_equation (N := pk.N) hi hib (hr _ (List.getElem_mem hi)).1 hk (by omega) h1
+  show _ ≡ _ [ZMOD pk.N]
+  refine ((Int.mod_modEq _ _).pow _).trans (h2.trans ?_)
+  rw [← mul_assoc]
+  exact (((powList_prod_modEq _ _ _).symm.mul_right _).mul_right _)
+
+/-! ### a weakness of `disclose_selectively` (reported)
+
+`disclose_selectively` hands the verifier bases for the hidden positions that only the holder
+knows (`a_j^{m_j}`). `verify_multiattr` cannot check them, so it gives NO assurance about the
+REVEALED attributes either: the holder of one valid signature can open a revealed position to a
+different value by compensating in a hidden base. -/
+
+/-- acceptance depends on the bases and attributes only through the product modulo `N`. -/
+theorem accepts_congr (hA : ArithOK) {cs : Suite} {σ : Signature} {pk : PublicKey}
+    {bases msgs bases' msgs' : List Int} (hN : 0 < pk.N) (hc0 : 0 ≤ pk.c)
+    (hlen : msgs'.length ≤ bases'.length) (hr : ∀ m ∈ msgs', 0 ≤ m ∧ m < 2 ^ cs.lm)
+    (hp : (powList pk.N bases' msgs').prod ≡ (powList pk.N bases msgs).prod [ZMOD pk.N])
+    (h : Accepts cs σ pk bases msgs) : Accepts cs σ pk bases' msgs' := by
+  obtain ⟨-, -, he1, he2, bs, hbs, heq⟩ := (accepts_iff hA hN).mp h
+  refine (accepts_iff hA hN).mpr ⟨hlen, hr, he1, he2, bs, hbs, ?_⟩
+  have hbs0 := (powMod_range hA hN hbs).1
+  rw [heq, tmod_eq_emod (Int.mul_nonneg (Int.mul_nonneg (powList_prod_nonneg hN _ _) hbs0) hc0),
+    tmod_eq_emod (Int.mul_nonneg (Int.mul_nonneg (powList_prod_nonneg hN _ _) hbs0) hc0)]
+  exact ((hp.symm.mul_right _).mul_right _)
+
+/-- **Revealed attributes are forgeable after disclosure.** From a signature accepted on
+`(m0, m1, ms…)` under the public bases `(a0, a1, as…)`, with position 1 hidden, the holder can show
+ANY smaller value `0 ≤ m0' ≤ m0` at the revealed position 0: present the hidden base
+`a0^{m0-m0'}·a1^{m1} mod N` (and the placeholder attribute `1`). All other bases are the genuine
+public ones; `verify_multiattr` accepts. -/
+theorem disclose_revealed_forgeable (hA : ArithOK) {cs : Suite} {σ : Signature} {pk : PublicKey}
+    {a0 a1 m0 m1 m0' : Int} {as ms : List Int} (hN : 0 < pk.N) (hc0 : 0 ≤ pk.c) (hlm : 1 ≤ cs.lm)
+    (hm0' : 0 ≤ m0' ∧ m0' ≤ m0)
+    (h : Accepts cs σ pk (a0 :: a1 :: as) (m0 :: m1 :: ms)) :
+    Accepts cs σ pk (a0 :: (a0 ^ (m0 - m0').toNat * a1 ^ m1.toNat % pk.N) :: as) (m0' :: 1 :: ms) := by
+  obtain ⟨hlen, hr, -⟩ := (accepts_iff hA hN).mp h
+  have h1 : (1 : Int) < 2 ^ cs.lm := by
+    calc (1 : Int) < 2 ^ 1 := by norm_num
+      _ ≤ 2 ^ cs.lm := pow_le_pow_right₀ (by norm_num) hlm
+  have hr0 := hr m0 (by simp)
+  refine accepts_congr hA hN hc0 (by simpa using hlen) ?_ ?_ h
+  · intro m hm
+    simp only [List.mem_cons] at hm
+    rcases hm with rfl | rfl | hm
+    · omega
+    · omega
+    · exact hr m (by simp [hm])
+  · simp only [powList_cons, List.prod_cons, Int.toNat_one, pow_one]
+    rw [← mul_assoc, ← mul_assoc]
+    refine Int.ModEq.mul_right _ ?_
+    have e1 : m0.toNat = m0'.toNat + (m0 - m0').toNat := by omega
+    calc a0 ^ m0'.toNat % pk.N * (a0 ^ (m0 - m0').toNat * a1 ^ m1.toNat % pk.N % pk.N)
+        ≡ a0 ^ m0'.toNat * (a0 ^ (m0 - m0').toNat * a1 ^ m1.toNat) [ZMOD pk.N] :=
+          (Int.mod_modEq _ _).mul ((Int.mod_modEq _ _).trans (Int.mod_modEq _ _))
+      _ = a0 ^ m0.toNat * a1 ^ m1.toNat := by rw [e1, pow_add]; ring
+      _ ≡ a0 ^ m0.toNat % pk.N * (a1 ^ m1.toNat % pk.N) [ZMOD pk.N] :=
+          ((Int.mod_modEq _ _).mul (Int.mod_modEq _ _)).symm
+
+/-! ### byte encoding (`to_bytes` / `from_bytes`) -/
+
+open Zk.ClDriver in
+/-- `Signature::to_bytes`: `e` in `le` bytes, `s` in `ls` bytes (sic: the Rust sizes the buffers
+with the BIT lengths), then `v` in minimal big-endian form. Transcribed from the driver
+(`cl.sigbytes`), which inlines it. -/
+def sigToBytes (cs : Suite) (σ : Signature) : M Bytes := do
+  let a ← toDigits cs.le σ.e
+  let b ← toDigits cs.ls σ.s
+  pure (a ++ b ++ minimalDigits σ.v)
+
+open Zk.ClDriver in
+/-- `Signature::from_bytes` (slice indexing panics on short input); driver op `cl.sigfrombytes`. -/
+def sigFromBytes (cs : Suite) (b : Bytes) : M Signature :=
+  if b.length < cs.le + cs.ls then Cl.panic
+  else pure ⟨ofDigits (b.take cs.le), ofDigits ((b.drop cs.le).take cs.ls), ofDigits (b.drop (cs.le + cs.ls))⟩
+
+/- `os2ip ∘ i2osp` (the BBS half has these in `Lemmas/Encoding.lean`, whose namespace clashes with
+`Zk.Cl.Suite`; re-proved here). -/
+theorem os2ip_append_singleton (b : Bytes) (a : UInt8) :
+    os2ip (b ++ [a]) = os2ip b * 256 + a.toNat := by
+  simp [os2ip, List.foldl_append]
+
+theorem os2ip_i2ospAux (n x : Nat) : os2ip (i2ospAux n x) = x % 256 ^ n := by
+  induction n generalizing x with
+  | zero => simp [i2ospAux, os2ip, Nat.mod_one]
+  | succ n ih =>
+    rw [i2ospAux, os2ip_append_singleton, ih, UInt8.toNat_ofNat']
+    have h : (256 : Nat) ^ (n + 1) = 256 * 256 ^ n := by rw [Nat.pow_succ, Nat.mul_comm]
+    rw [h, Nat.mod_mul]
+    have : x % 256 % 2 ^ 8 = x % 256 := by
+      apply Nat.mod_eq_of_lt; exact Nat.mod_lt _ (by decide)
+    rw [this]; ring
+
+theorem os2ip_i2osp {n x : Nat} (h : x < 256 ^ n) : os2ip (i2osp n x) = x := by
+  rw [i2osp, os2ip_i2ospAux, Nat.mod_eq_of_lt h]
+
+theorem i2osp_length (n x : Nat) : (i2osp n x).length = n := by
+  unfold i2osp
+  induction n generalizing x with
+  | zero => rfl
+  | succ n ih => simp [i2ospAux, ih]
+
+theorem toDigits_ok {len : Nat} {x : Int} (h0 : 0 ≤ x) (hx : x < 256 ^ len) (t : List Draw) :
+    ClDriver.toDigits len x t = .ok (i2osp len x.toNat, t) := by
+  unfold ClDriver.toDigits
+  have : ¬ (x < 0 ∨ x.toNat ≥ 256 ^ len) := by
+    have : x.toNat < 256 ^ len := by
+      have h : (x.toNat : Int) < ((256 ^ len : Nat) : Int) := by
+        rw [Int.toNat_of_nonneg h0]; push_cast; exact hx
+      exact_mod_cast h
+    omega
+  rw [if_neg this]; rfl
+
+theorem ofDigits_i2osp {len : Nat} {x : Int} (h0 : 0 ≤ x) (hx : x < 256 ^ len) :
+    ClDriver.ofDigits (i2osp len x.toNat) = x := by
+  unfold ClDriver.ofDigits
+  have : x.toNat < 256 ^ len := by
+    have h : (x.toNat : Int) < ((256 ^ len : Nat) : Int) := by
+      rw [Int.toNat_of_nonneg h0]; push_cast; exact hx
+    exact_mod_cast h
+  rw [os2ip_i2osp this]
+  exact Int.toNat_of_nonneg h0
+
+theorem ofDigits_minimalDigits {v : Int} (h0 : 0 ≤ v) :
+    ClDriver.ofDigits (ClDriver.minimalDigits v) = v := by
+  unfold ClDriver.ofDigits ClDriver.minimalDigits
+  obtain ⟨n, rfl⟩ := Int.eq_ofNat_of_zero_le h0
+  have hlt : n < 256 ^ ((bitLen (n : Int) + 7) / 8) := by
+    have h256 : (256 : Nat) ^ ((bitLen (n : Int) + 7) / 8) = 2 ^ (8 * ((bitLen (n : Int) + 7) / 8)) := by
+      rw [Nat.pow_mul]
+    rw [h256]
+    by_cases hn : n = 0
+    · subst hn; exact Nat.two_pow_pos _
+    · have hb : bitLen (n : Int) = n.log2 + 1 := by
+        unfold bitLen
+        have hne : ((n : Int) == 0) = false := by rw [beq_eq_false_iff_ne]; exact_mod_cast hn
+        rw [hne]; simp
+      calc n < 2 ^ (n.log2 + 1) := Nat.lt_log2_self
+        _ ≤ 2 ^ (8 * ((bitLen (n : Int) + 7) / 8)) := Nat.pow_le_pow_right (by norm_num) (by omega)
+  rw [Int.natAbs_natCast, os2ip_i2osp hlt]; rfl
+
+/-- **Byte round trip.** A signature with `0 ≤ e < 256^le`, `0 ≤ s < 256^ls`, `0 ≤ v` encodes
+without panic and decodes to itself. -/
+theorem cl_codec_roundtrip {cs : Suite} {σ : Signature} (he : 0 ≤ σ.e ∧ σ.e < 256 ^ cs.le)
+    (hs : 0 ≤ σ.s ∧ σ.s < 256 ^ cs.ls) (hv : 0 ≤ σ.v) (t : List Draw) :
+    ∃ b, sigToBytes cs σ t = .ok (b, t) ∧ sigFromBytes cs b t = .ok (σ, t) := by
+  refine ⟨i2osp cs.le σ.e.toNat ++ i2osp cs.ls σ.s.toNat ++ ClDriver.minimalDigits σ.v, ?_, ?_⟩
+  · unfold sigToBytes
+    rw [bind_of_ok (toDigits_ok he.1 he.2 t), bind_of_ok (toDigits_ok hs.1 hs.2 t)]; rfl
+  · unfold sigFromBytes
+    rw [ite_apply_tape, if_neg (by simp [i2osp_length]), pure_apply]
+    have t1 : (i2osp cs.le σ.e.toNat ++ i2osp cs.ls σ.s.toNat ++ ClDriver.minimalDigits σ.v).take cs.le =
+        i2osp cs.le σ.e.toNat := by
+      rw [List.append_assoc, List.take_left' (i2osp_length _ _)]
+    have t2 : (i2osp cs.le σ.e.toNat ++ i2osp cs.ls σ.s.toNat ++ ClDriver.minimalDigits σ.v).drop cs.le =
+        i2osp cs.ls σ.s.toNat ++ ClDriver.minimalDigits σ.v := by
+      rw [List.append_assoc, List.drop_left' (i2osp_length _ _)]
+    have t3 : (i2osp cs.le σ.e.toNat ++ i2osp cs.ls σ.s.toNat ++ ClDriver.minimalDigits σ.v).drop
+        (cs.le + cs.ls) = ClDriver.minimalDigits σ.v := by
+      rw [List.drop_left' (by simp [i2osp_length])]
+    rw [t1, t2, t3, List.take_left' (i2osp_length _ _), ofDigits_i2osp he.1 he.2, ofDigits_i2osp hs.1 hs.2,
+      ofDigits_minimalDigits hv]
+
+theorem two_pow_le_256_pow (k : Nat) : (2 : Int) ^ k ≤ 256 ^ k :=
+  pow_le_pow_left₀ (by norm_num) (by norm_num) k
+
+theorem lt_two_pow_bitLen {x : Int} (h0 : 0 ≤ x) : x < 2 ^ bitLen x := by
+  obtain ⟨n, rfl⟩ := Int.eq_ofNat_of_zero_le h0
+  by_cases hn : n = 0
+  · subst hn; exact two_pow_pos' _
+  · have hb : bitLen (n : Int) = n.log2 + 1 := by
+      unfold bitLen
+      have hne : ((n : Int) == 0) = false := by rw [beq_eq_false_iff_ne]; exact_mod_cast hn
+      rw [hne]; simp
+    rw [hb]
+    exact_mod_cast (Nat.lt_log2_self : n < 2 ^ (n.log2 + 1))
+
+/-- **An issued signature survives its byte encoding.** -/
+theorem issued_codec_roundtrip (hA : ArithOK) {cs : Suite} {pk : PublicKey} {sk : SecretKey}
+    {bases msgs : List Int} (hN : 0 < pk.N) {σ : Signature} {tape rest : List Draw}
+    (h : signMultiattr cs pk sk bases msgs tape = .ok (σ, rest)) (t : List Draw) :
+    ∃ b, sigToBytes cs σ t = .ok (b, t) ∧ sigFromBytes cs b t = .ok (σ, t) := by
+  have hs := e_shape h
+  obtain ⟨t1, d, P, bs, -, -, -, -, -, hv⟩ := signMultiattr_ok_inv h
+  have hp : (0 : Int) < 2 ^ (cs.le - 1) := two_pow_pos' _
+  refine cl_codec_roundtrip ⟨by have := hs.e_gt; omega, lt_of_lt_of_le hs.e_lt (two_pow_le_256_pow _)⟩
+    ⟨hs.s_nonneg, ?_⟩ (powMod_range hA hN hv).1 t
+  have := lt_two_pow_bitLen hs.s_nonneg
+  rw [hs.s_bits] at this
+  exact lt_of_lt_of_le this (two_pow_le_256_pow _)
+
+/-! ### the generated suites -/
+
+/-- the model's `Suite` for a generated constant record (as `ClDriver.suiteOf` builds it). -/
+def suiteOfConsts (c : Zk.Generated.ClSuiteConsts) : Suite :=
+  { secparam := c.secparam, ln := c.ln, lm := c.lm, lin := c.lin, le := c.le, ls := c.ls,
+    t := c.t, l := c.l, s := c.s, s1 := c.s1, s2 := c.s2 }
+
+def cl1024 : Suite := suiteOfConsts Zk.Generated.cl1024
+def cl2048 : Suite := suiteOfConsts Zk.Generated.cl2048
+def cl3072 : Suite := suiteOfConsts Zk.Generated.cl3072
+
+theorem suiteOf_eq : ClDriver.suiteOf "cl1024" = some cl1024 ∧ ClDriver.suiteOf "cl2048" = some cl2048 ∧
+    ClDriver.suiteOf "cl3072" = some cl3072 := ⟨by rfl, by rfl, by rfl⟩
+
+theorem cl1024_le : cl1024.le = cl1024.lm + 2 := by decide
+theorem cl2048_le : cl2048.le = cl2048.lm + 2 := by decide
+theorem cl3072_le : cl3072.le = cl3072.lm + 2 := by decide
+theorem cl1024_lm : 1 ≤ cl1024.lm := by decide
+theorem cl2048_lm : 1 ≤ cl2048.lm := by decide
+theorem cl3072_lm : 1 ≤ cl3072.lm := by decide
+
+/-- `le = lm + 2` gives the hypothesis of `shift_forgery_excluded`. -/
+theorem shift_forgery_excluded' {cs : Suite} (hle : cs.le = cs.lm + 2) {σ' : Signature} {pk : PublicKey}
+    {bases msgs : List Int} (hm : ∀ m ∈ msgs, 0 ≤ m ∧ m < 2 ^ cs.lm) {i : Nat} (hi : i < msgs.length)
+    {k : Int} (hk : k ≠ 0) (t : List Draw) :
+    verifyMultiattr cs σ' pk bases (msgs.set i (msgs[i] + k * σ'.e)) t = .ok (false, t) ∨
+      verifyMultiattr cs σ' pk bases (msgs.set i (msgs[i] + k * σ'.e)) t = .panic :=
+  shift_forgery_excluded (by omega) hm hi hk t
+
+theorem shift_forgery_excluded_cl1024 {σ' : Signature} {pk : PublicKey} {bases msgs : List Int}
+    (hm : ∀ m ∈ msgs, 0 ≤ m ∧ m < 2 ^ cl1024.lm) {i : Nat} (hi : i < msgs.length) {k : Int}
+    (hk : k ≠ 0) (t : List Draw) :
+    verifyMultiattr cl1024 σ' pk bases (msgs.set i (msgs[i] + k * σ'.e)) t = .ok (false, t) ∨
+      verifyMultiattr cl1024 σ' pk bases (msgs.set i (msgs[i] + k * σ'.e)) t = .panic :=
+  shift_forgery_excluded' cl1024_le hm hi hk t
+
+theorem shift_forgery_excluded_cl2048 {σ' : Signature} {pk : PublicKey} {bases msgs : List Int}
+    (hm : ∀ m ∈ msgs, 0 ≤ m ∧ m < 2 ^ cl2048.lm) {i : Nat} (hi : i < msgs.length) {k : Int}
+    (hk : k ≠ 0) (t : List Draw) :
+    verifyMultiattr cl2048 σ' pk bases (msgs.set i (msgs[i] + k * σ'.e)) t = .ok (false, t) ∨
+      verifyMultiattr cl2048 σ' pk bases (msgs.set i (msgs[i] + k * σ'.e)) t = .panic :=
+  shift_forgery_excluded' cl2048_le hm hi hk t
+
+theorem shift_forgery_excluded_cl3072 {σ' : Signature} {pk : PublicKey} {bases msgs : List Int}
+    (hm : ∀ m ∈ msgs, 0 ≤ m ∧ m < 2 ^ cl3072.lm) {i : Nat} (hi : i < msgs.length) {k : Int}
+    (hk : k ≠ 0) (t : List Draw) :
+    verifyMultiattr cl3072 σ' pk bases (msgs.set i (msgs[i] + k * σ'.e)) t = .ok (false, t) ∨
+      verifyMultiattr cl3072 σ' pk bases (msgs.set i (msgs[i] + k * σ'.e)) t = .panic :=
+  shift_forgery_excluded' cl3072_le hm hi hk t
+
+/-! ### the hypotheses are satisfiable -/
+
+/-- a toy key: `N = 7·11`, `b = 4`, `c = 9` (squares, units). -/
+example : KeyOK ⟨77, 4, 9⟩ ⟨7, 11⟩ :=
+  ⟨by show Nat.Prime 7; decide, by show Nat.Prime 11; decide, by decide, by decide⟩
+
+example : Int.gcd 4 77 = 1 ∧ Int.gcd 9 77 = 1 ∧ (0 : Int) ≤ 9 ∧ Int.gcd 16 77 = 1 := by decide
 
 end Zk.C13
